@@ -659,3 +659,55 @@ Proof.
   unfold request_merge in K. apply msg_update_has in K as [K|K]; [exact K|].
   now apply keep_keys_has in K.
 Qed.
+
+(* ================================================================== C11: embedded signed objects *)
+(* with the caller naming the signing algorithm it expects (anything but "none"), an embedded object is
+   accepted only if it carries a valid signature of the expected issuer made with that algorithm -
+   encrypted to the verifier or not; bare JSON inside a JWE, alg none and forged signatures are refused,
+   whatever the class's own rules say *)
+Theorem embedded_verify_signed rules a lc t o :
+  a <> [] -> a <> PS "none" -> embedded_verify rules (Some a) lc t = Ok o ->
+  (signed_with a t \/ exists p, t = TJws SigNone a p \/ t = TJwe (TJws SigNone a p)).
+Proof.
+  intros Hne Hnone. unfold embedded_verify.
+  assert (P : forall u alg p, open_plain u = Ok (Some alg, p) ->
+              (u = TJws SigValid alg p \/ u = TJws SigNone alg p)).
+  { intros u alg p. destruct u as [[| |] al q|q|i|]; cbn; intros H; inversion H; subst; auto. }
+  assert (Q : forall u p, open_plain u = Ok (None, p) -> u = TJson p).
+  { intros u p. destruct u as [[| |] al q|q|i|]; cbn; intros H; inversion H; subst; auto. }
+  destruct (open_token t) as [[hdr p]|e|] eqn:O; cbn [bind fst snd]; try discriminate.
+  destruct (construct lc p) as [o'|e|]; cbn [bind fst snd]; try discriminate.
+  destruct (rules o') as [[]|e|]; cbn [bind]; try discriminate.
+  destruct a as [|a0 ar]; [contradiction|].
+  destruct hdr as [alg|]; cbn [alg_check bind]; [|discriminate].
+  destruct (str_eqb alg (a0 :: ar)) eqn:E; cbn [bind]; [|discriminate]. apply str_eqb_eq in E. subst alg.
+  intros _. destruct t as [s al q|q|i|]; cbn [open_token] in O.
+  - destruct (P _ _ _ O) as [H|H]; inversion H; subst.
+    + left. exists p. now left.
+    + right. exists p. now left.
+  - discriminate.
+  - destruct (P _ _ _ O) as [H|H]; subst.
+    + left. exists p. now right.
+    + right. exists p. now right.
+  - destruct (P _ _ _ O) as [H|H]; discriminate.
+Qed.
+(* a JWS whose header names the expected algorithm is not an alg-none JWS: the second alternative is empty
+   for real tokens (alg none tokens carry alg "none"); stated for tokens whose SigNone header is "none" *)
+Definition none_headers_ok (t : token) : Prop :=
+  forall alg p, (t = TJws SigNone alg p \/ t = TJwe (TJws SigNone alg p)) -> alg = PS "none".
+Theorem embedded_verify_only_signed rules a lc t o :
+  a <> [] -> a <> PS "none" -> none_headers_ok t -> embedded_verify rules (Some a) lc t = Ok o -> signed_with a t.
+Proof.
+  intros Hne Hnone Hh H. destruct (embedded_verify_signed rules a lc t o Hne Hnone H) as [S|[p D]]; [exact S|].
+  exfalso. apply Hnone. exact (Hh a p D).
+Qed.
+(* without the keyword the full statement is FALSE of the faithful model (the findings signed-object:alg-none and
+   signed-object:jwe:bare-json of every class): unsigned JSON encrypted to the verifier's public key is accepted *)
+Lemma embedded_verify_refuted lc p o :
+  construct lc p = Ok o ->
+  embedded_verify (fun _ => Ok tt) None lc (TJwe (TJson p)) = Ok o /\ ~ (exists a, signed_with a (TJwe (TJson p))).
+Proof.
+  intros C. split.
+  - unfold embedded_verify. cbn [open_token open_plain bind fst snd]. rewrite C. reflexivity.
+  - intros (a & q & [H|H]); discriminate.
+Qed.
